@@ -44,6 +44,7 @@ func (f *FlatFamily) Add(src string, tags map[string]string) {
 // FamilyCount is the per-family acceptance split.
 type FamilyCount struct {
 	Generated, Accepted, Rejected, Kept, Unsupported, Levels, SkippedBudget int64
+	KeptPerLevel                                                            []int64
 }
 
 // WalkStats is filled by Walk.
@@ -98,7 +99,9 @@ func Walk(cfg WalkConfig, handle func(worker int, progs []*ProgInfo)) *WalkStats
 					if err != nil {
 						continue // cannot happen: it compiled a moment ago
 					}
-					progs = append(progs, Describe(p, x.family, x.prog.Tags))
+					pi := Describe(p, x.family, x.prog.Tags)
+					pi.Release()
+					progs = append(progs, pi)
 				}
 				handle(w, progs)
 			}
@@ -167,12 +170,15 @@ func Walk(cfg WalkConfig, handle func(worker int, progs []*ProgInfo)) *WalkStats
 			list := carry
 			carry = nil
 			ws.mu.Lock()
+			nk := int64(0)
 			for i := range level {
 				if kept[i] {
 					list = append(list, pending{name, level[i]})
-					ws.fam(name).Kept++
+					nk++
 				}
 			}
+			ws.fam(name).Kept += nk
+			ws.fam(name).KeptPerLevel = append(ws.fam(name).KeptPerLevel, nk)
 			ws.mu.Unlock()
 			// Full batches now; a small remainder joins the next level / family.
 			full := len(list) / cfg.BatchSize * cfg.BatchSize
